@@ -98,3 +98,101 @@ def run(ctx, prog, rule="R-ACCUM", files=("Numbers/", "Json/JsonDeserializer.hpp
                                                                         "undefined behaviour" if tk == "s32" else "silent wrap-around"))
     ctx.floor(rule, "loops inspected", nloops, 10)
     ctx.doc(rule, __doc__.strip().split("\n\n")[1].replace("\n", " "))
+
+
+LOCKSTEP_DOC = """R-LOCKSTEP — a digit is never counted twice (C12: "never a finite value of the wrong magnitude"; C13: numeric strings).
+A cursor loop is a loop whose condition reads *s through a pointer local s that its body advances.  On every path through the
+body that leaves the loop without advancing s and stays in the function (break), no variable that is read after the loop may
+have been changed: otherwise the character under the cursor has been folded into that variable and is seen again by the code
+that follows (the next loop counts it once more), and the result is off by a power of the base."""
+
+
+def run_lockstep(ctx, prog, rule="R-LOCKSTEP", files=("Numbers/", "Json/", "MsgPack/", "Strings/", "Variant/", "Deserialization/")):
+    nloops = 0
+    for fn in sorted(prog.fns.values(), key=lambda f: f.key):
+        if not fn.file.startswith(files) or fn.cfg is None:
+            continue
+        for li in fn.walk():
+            ls = fn.s(li)
+            if ls["k"] not in LOOPS:
+                continue
+            cond, body, inc = ls.get("cond"), ls.get("body"), ls.get("inc")
+            if cond is None or body is None:
+                continue
+            cursors = {}
+            for j in fn.walk(cond):
+                sj = fn.s(j)
+                if sj["k"] == "UnaryOperator" and sj["op"] == "*":
+                    b = fn.s(fn.strip(sj["c"][0], casts=True))
+                    if b["k"] == "DeclRefExpr" and b["ref"]["k"] in ("local", "parm") and b.get("tk") == "ptr":
+                        cursors[b["ref"]["d"]] = b["ref"]["n"]
+            mods = mods_in(fn, body) + (mods_in(fn, inc) if inc is not None else [])
+            adv = {d for _, d, _, _, op in mods if d in cursors and op in ("++", "+=")}
+            if not adv:
+                continue
+            nloops += 1
+            modat = {}
+            for (mi, d, name, tk, op) in mods:
+                modat[mi] = (d, name, op)
+            blocks = fn.blocks()
+            pos = fn.pos()
+            body_nodes = set(fn.walk(body)) | (set(fn.walk(inc)) if inc is not None else set())
+            cond_nodes = set(fn.walk(cond))
+            LB = {pos[x][0] for x in body_nodes if x in pos}
+            CB = {pos[x][0] for x in cond_nodes if x in pos} - LB
+            starts = set()
+            for cb in CB:
+                for s in blocks[cb]["succ"]:
+                    if s in LB:
+                        starts.add(s)
+            if ls["k"] == "DoStmt":
+                starts = {min(LB, key=lambda b: -b)} if LB else set()
+            bad = []
+            seen = set()
+            stack = [(s, False, frozenset()) for s in starts]
+            while stack:
+                b, advanced, writes = stack.pop()
+                if (b, advanced, writes) in seen:
+                    continue
+                seen.add((b, advanced, writes))
+                w = set(writes)
+                for e in blocks[b]["el"]:
+                    if e in modat and e in body_nodes:
+                        d, name, op = modat[e]
+                        if d in adv:
+                            advanced = True
+                        else:
+                            w.add((d, name, e))
+                for s in blocks[b]["succ"]:
+                    if s < 0:
+                        continue
+                    if s in CB:
+                        continue            # back edge: next iteration re-reads *s
+                    if s in LB:
+                        stack.append((s, advanced, frozenset(w)))
+                        continue
+                    # leaves the loop
+                    if advanced or not w:
+                        continue
+                    after = fn.reach_from([s])
+                    for (d, name, e) in sorted(w, key=lambda x: x[2]):
+                        read = False
+                        for ab in after:
+                            for x in blocks[ab]["el"]:
+                                if not isinstance(x, int) or x < 0 or x in body_nodes:
+                                    continue
+                                sx = fn.s(x)
+                                if sx["k"] == "DeclRefExpr" and sx["ref"]["d"] == d:
+                                    read = True
+                        if read:
+                            bad.append((e, name))
+            cname = "/".join(sorted(cursors[d] for d in adv))
+            ok = not bad
+            ctx.ob(rule, "%s: loop on *%s at line %s leaves no half-consumed character" % (fn.short, cname, fn.loc(li).rsplit(":", 1)[-1]),
+                   ok, fn.loc(li) if ok else fn.loc(bad[0][0]),
+                   "every path that leaves the loop without advancing %s leaves the variables read afterwards unchanged" % cname if ok else
+                   "%s is changed and the loop is then left by a break without advancing %s: the character under the cursor is already "
+                   "folded into %s and is processed again by the code after the loop, so the result is off by a power of ten "
+                   "(e.g. the literal 18446744073709551616 = 2^64 parses as 1.8e20)" % (bad[0][1], cname, bad[0][1]))
+    ctx.floor(rule, "cursor loops", nloops, 4)
+    ctx.doc(rule, LOCKSTEP_DOC.split("\n", 1)[1].replace("\n", " "))
